@@ -204,7 +204,7 @@ def run(run, ix, tier):
     from ..report import SubRun
     from . import c34
     run.rule('D-ODE', floor=5, desc='odefun segment cache: append-only, lookup index in range, extension test')
-    c34.run(SubRun(run, keep=('O-R2', 'O-R3', 'O-R4'), rename=lambda r: 'D-ODE'), ix, tier)
+    c34.run(SubRun(run, keep=('O-R1', 'O-R2', 'O-R3', 'O-R4'), rename=lambda r: 'D-ODE'), ix, tier)
 
 
 # ---------------------------------------------------------------------------
@@ -783,6 +783,20 @@ def check_lu(run, ix):
                      is_req(x.value) for x in sib)
         if tagged:
             run.ok('D-LU', 'store of _LU records the precision')
+            # nothing that can reject the factorisation may come after the store: an exception raised there leaves
+            # factors in the cache that a fresh computation refuses to return
+            body = f.node.body
+            top = st
+            while top._parent is not f.node:
+                top = top._parent
+            later = [x for s2 in body[body.index(top) + 1:] for x in ast.walk(s2) if isinstance(x, ast.Raise)]
+            if later:
+                run.fail(Finding('D-LU', rel, f.qualname, norm(later[0]._parent if hasattr(later[0], '_parent') else later[0]),
+                                 'a check that rejects the factorisation (%s) runs AFTER the factors were cached: the '
+                                 'call raises, but the next call on the same matrix is served the rejected factors'
+                                 % norm(later[0], 60), line=later[0].lineno))
+            else:
+                run.ok('D-LU', 'no rejecting check after the store')
             why = torn_update_problem(f.node, '_LU', '_LU_prec', invalid=(0,))
             if why:
                 run.fail(Finding('D-LU', rel, f.qualname, norm(st), why, line=st.lineno))
@@ -931,6 +945,42 @@ def check_cross_context(run, ix):
                     else:
                         run.ok('D-R3', '%s:%s store into shared %s is context-free or keyed by ctx'
                                % (rel, f.qualname, cname))
+    # closure containers: a nested function that receives the context and stores context-derived values into a
+    # container created in an ENCLOSING function that does not itself receive the context (a decorator such as
+    # c_memo(f): cache = {} ...) shares that container between every context that calls the wrapped function
+    for rel, m in sorted(ix.modules.items()):
+        for f in m.funcs.values():
+            if f.parent is None or not f.params or f.params[0] != 'ctx':
+                continue
+            outer = f.parent
+            chain = []
+            while outer is not None:
+                chain.append(outer)
+                outer = outer.parent
+            if any(o.params and o.params[0] in ('ctx', 'self') for o in chain):
+                continue            # the enclosing activation belongs to one context
+            outer_containers = set()
+            for o in chain:
+                for x in _walk_own(o.node):
+                    if isinstance(x, ast.Assign) and len(x.targets) == 1 and isinstance(x.targets[0], ast.Name) and \
+                            is_container(x.value):
+                        outer_containers.add(x.targets[0].id)
+            local = set(t.id for x in _walk_own(f.node) if isinstance(x, ast.Assign) for t in x.targets
+                        if isinstance(t, ast.Name))
+            for x in _walk_own(f.node):
+                if isinstance(x, ast.Assign) and len(x.targets) == 1 and isinstance(x.targets[0], ast.Subscript) and \
+                        isinstance(x.targets[0].value, ast.Name) and x.targets[0].value.id in outer_containers - local:
+                    cname = x.targets[0].value.id
+                    dep = ctx_dependent(f, x.value)
+                    ctx_in_key = any(isinstance(n, ast.Name) and n.id == 'ctx' for n in ast.walk(x.targets[0].slice))
+                    if dep and not ctx_in_key:
+                        run.fail(Finding('D-R3', rel, f.qualname, norm(x),
+                                         'a value computed through the context (%s) is stored in `%s`, a container that '
+                                         'belongs to the enclosing %s() -- created once per decorated function, not per '
+                                         'context: every context (mp, clones, fp, iv) is served the numbers of whichever '
+                                         'context filled it' % (dep, cname, chain[0].name), line=x.lineno))
+                    else:
+                        run.ok('D-R3', '%s:%s closure container %s is context-free or keyed by ctx' % (rel, f.qualname, cname))
     # positive control: the rule must see at least the kernel-level shared caches
     run.ok('D-R3', 'scan complete')
     run.ok('D-R3', 'scan covers %d modules' % len(ix.modules))
